@@ -16,6 +16,8 @@ import warnings
 
 
 def _reexec_with_hashseed():
+    if os.environ.get("NIXSIM_NO_REEXEC"):
+        return          # the determinism self-test runs under other hash seeds on purpose
     if os.environ.get("PYTHONHASHSEED") != "0":
         env = dict(os.environ)
         env["PYTHONHASHSEED"] = "0"
